@@ -159,6 +159,13 @@ def run_syntactic(prop, repo, outdir):
                 ex = run_extract(repo, ["async"], [{"name": "x", "file": "src/fn_graph.rs", "kind": "call_arg", "ident": fn, "impl_self": impl, "call": callee, "nth": 0, "arg": 0}], outdir)
                 got = ex["x"]["text"]
                 st = "discharged" if got == want else "FAILED"
+                if st == "discharged":
+                    # the argument text only means the caller's value when the name still denotes the parameter
+                    bx = run_extract(repo, ["async"], [{"name": "b", "file": "src/fn_graph.rs", "kind": "binders", "ident": fn, "impl_self": impl, "binder": want}], outdir)
+                    b = json.loads(bx["b"]["text"])
+                    if not b["param"] or b["param_mut"] or b["rebinds"] or b["assigns"]:
+                        st = "undischarged"
+                        res["undecided"].append(f"syntactic:{fn}:`{want}` is rebound or assigned before it reaches {callee} (param={b['param']} mut={b['param_mut']} rebinds={b['rebinds']} assigns={b['assigns']}): forwarding cannot be decided syntactically")
                 if st == "FAILED":
                     res["violations"].append({"oid": oid, "kind": "syntactic", "named": True, "message": f"argument 0 of {callee} in {fn} is `{got}`, expected `{want}`",
                                               "rendered": f"{fn}: .{callee}({got}, ..) - the concurrency limit given by the caller is not what reaches the combinator", "where": {"k": "syntactic", "fn": fn, "file": "src/fn_graph.rs", "span": ex["x"]["span"]}})
@@ -180,6 +187,51 @@ def run_syntactic(prop, repo, outdir):
                 st = "undischarged"
                 res["undecided"].append(f"syntactic:{ident}:{u.reason[:120]}")
             res["obligations"].append({"id": oid, "kind": "syntactic", "status": st, "weight": 1, "unit": "SYN", "features": "async", "backend": "syntactic"})
+    if prop in ("C15", "C20"):
+        # no global mutable state: per-run state can only be per run when the crate has no `static` at all
+        oid = f"SYN/crate/{prop}.no-static-or-thread-local-state-in-the-crate"
+        st = "discharged"
+        try:
+            todo, seen, found = [("src/lib.rs", "src")], set(), []
+            while todo:
+                f, d = todo.pop()
+                if f in seen:
+                    continue
+                seen.add(f)
+                ex = run_extract(repo, ["async", "interruptible", "graph_info"], [{"name": "x", "file": f, "kind": "statics"}], outdir)
+                j = json.loads(ex["x"]["text"])
+                found += [f"{f}: {x}" for x in j["statics"]]
+                for m in j["mods"]:
+                    base = d if os.path.basename(f) in ("lib.rs", "mod.rs") else os.path.join(d, os.path.splitext(os.path.basename(f))[0])
+                    for cand, nd in ((os.path.join(base, m + ".rs"), base), (os.path.join(base, m, "mod.rs"), os.path.join(base, m))):
+                        if os.path.exists(os.path.join(repo, cand)):
+                            todo.append((cand, nd))
+                            break
+                    else:
+                        raise Undecided("anchor-lost", f"module {m} of {f} not found")
+            # an immutable static of a plain type is a constant, not state; a type the scan cannot see through is undecided
+            PRIMS = {"static", "str", "bool", "char", "u8", "u16", "u32", "u64", "u128", "usize", "i8", "i16", "i32", "i64", "i128", "isize", "f32", "f64"}
+            def classify_static(entry):
+                x = entry.split(": ", 1)[1]            # drop the file prefix
+                if x.startswith("static mut ") or INTERIOR_MUT.search(x):
+                    return "state"
+                if x.startswith("static ") and ": " in x and all(w in PRIMS or w.isdigit() for w in re.findall(r"\w+", x.split(": ", 1)[1])):
+                    return "constant"
+                return "unknown"
+            kinds = {x: classify_static(x) for x in found}
+            unknown = [x for x in found if kinds[x] == "unknown"]
+            found = [x for x in found if kinds[x] == "state"]
+            if unknown and not found:
+                raise Undecided("syntactic-unknown", "static of a type the scan cannot classify: " + unknown[0][:100])
+            if found:
+                st = "FAILED"
+                res["violations"].append({"oid": oid, "kind": "syntactic", "named": True, "message": "global state in the crate: " + "; ".join(found)[:400],
+                                          "rendered": "\n".join(found), "where": {"k": "syntactic", "fn": "crate", "file": found[0].split(":")[0]}})
+            res["functions"]["crate-module-tree"] = {"repo_file": "src/lib.rs", "repo_span": [1, 1], "sha256": "", "rules": ["statics scan over %d files" % len(seen)], "under_contract": False, "smt_ms": 0}
+        except Undecided as u:
+            st = "undischarged"
+            res["undecided"].append(f"syntactic:statics:{u.reason[:120]}")
+        res["obligations"].append({"id": oid, "kind": "syntactic", "status": st, "weight": 1, "unit": "SYN", "features": "async", "backend": "syntactic"})
     res["wall"] = time.time() - t0
     return res
 
@@ -200,20 +252,22 @@ def run(prop, tier, repo, outdir, seed):
 
 REPLAY_BINS = {
     "C05": [("c05_stall", []), ("c_run", [], ["C05"])],
-    "C04": [("c04_empty", []), ("c_run", [], ["C04"])],
-    "C02": [("c_run", [], ["C02"])],
-    "C03": [("c_run", [], ["C03"])],
+    "C04": [("c04_empty", []), ("c_sched", [], ["C04"]), ("c_run", [], ["C04"])],
+    "C02": [("c_sched", [], ["C02"]), ("c_run", [], ["C02"])],
+    "C03": [("c_sched", [], ["C03"]), ("c_run", [], ["C03"])],
     "C07": [("c_run", [], ["C07"])],
     "C09": [("c_run", [], ["C09"])],
-    "C10": [("c_run", [], ["C10"])],
+    "C10": [("c_sched", [], ["C10"]), ("c_run", [], ["C10"])],
     "C18": [("c18_pops", ["--features", "hooks"])],
     "C13": [("c13_ranks", [])],
     "C11": [("c11_build", [])],
-    "C01": [("c11_build", []), ("c_run", [], ["C01"])],
-    "C06": [("c11_build", [])],
+    "C01": [("c11_build", []), ("c_sched", [], ["C01"]), ("c_run", [], ["C01"])],
+    "C06": [("c11_build", []), ("c_sched", [], ["C06"])],
     "C12": [("c11_build", [])],
     "C14": [("c14_seq", [])],
+    "C15": [("c_sched", [], ["C15"])],
     "C17": [("c17_info", ["--features", "graph_info"])],
+    "C20": [("c_sched", [], ["C20"])],
 }
 
 
